@@ -35,7 +35,7 @@
 EXTENDS Integers, Sequences, FiniteSets, TLC, Json
 
 CONSTANTS NG,                 \* number of goroutines
-          Workload,           \* "cold" | "dirs" | "regrender"
+          Workload,           \* "cold" | "dirs" | "regrender" | "reload"
           EarlyTokPut, UnguardedPaths, SharedCurrent
 VARIABLES pc, templates, tokFree, tokBuf, mytok, parsed, paths, cur, resolved, result, linver, hist
 vars == <<pc, templates, tokFree, tokBuf, mytok, parsed, paths, cur, resolved, result, linver, hist>>
@@ -45,13 +45,15 @@ Toks == 1..NG
 \* what each goroutine does
 Op(g) == CASE Workload = "cold"  -> [kind |-> "render", n |-> "same", dir |-> "A", v |-> 1]
            [] Workload = "dirs"  -> [kind |-> "render", n |-> (IF g % 2 = 1 THEN "dirA/main" ELSE "dirB/main"), dir |-> (IF g % 2 = 1 THEN "A" ELSE "B"), v |-> 1]
+           \* reload: version 1 is cached, the timestamp-aware loader has held version 2 (newer stamp) since before every call
+           [] Workload = "reload" -> [kind |-> "render", n |-> "same", dir |-> "A", v |-> 2]
            [] Workload = "regrender" -> IF g = 1 THEN [kind |-> "register", n |-> "same", dir |-> "A", v |-> 2]
                                         ELSE [kind |-> "render", n |-> "same", dir |-> "A", v |-> 1]
 Names == {Op(g).n : g \in G}
-LoaderVersion == 1            \* what the loader holds for every name
+LoaderVersion == IF Workload = "reload" THEN 2 ELSE 1            \* what the loader holds for every name
 
 Init == /\ pc = [g \in G |-> IF SharedCurrent /\ Op(g).kind = "render" THEN "writecur" ELSE IF Op(g).kind = "render" THEN "lookup" ELSE "tokget"]
-        /\ templates = [n \in Names |-> IF Workload = "regrender" THEN 1 ELSE 0]      \* regrender: version 1 is cached already
+        /\ templates = [n \in Names |-> IF Workload \in {"regrender", "reload"} THEN 1 ELSE 0]      \* version 1 is cached already
         /\ tokFree = Toks /\ tokBuf = [t \in Toks |-> 0] /\ mytok = [g \in G |-> 0] /\ parsed = [g \in G |-> 0]
         /\ paths = {} /\ cur = "" /\ resolved = [g \in G |-> ""] /\ result = [g \in G |-> 0] /\ linver = [g \in G |-> 0]
         /\ hist = <<>>
@@ -67,7 +69,8 @@ WriteCur(g) == /\ pc[g] = "writecur" /\ cur' = Op(g).n /\ Goto(g, "lookup") /\ S
                /\ UNCHANGED <<templates, tokFree, tokBuf, mytok, parsed, paths, resolved, result, linver>>
 Lookup(g) ==
     /\ pc[g] = "lookup" /\ Step(g, "lookup")
-    /\ IF templates[Op(g).n] # 0
+    \* auto-reload (workload reload): a cached copy older than what the loader holds is not a hit -- the call re-reads the loader
+    /\ IF templates[Op(g).n] # 0 /\ ~(Workload = "reload" /\ templates[Op(g).n] < LoaderVersion)
        THEN /\ Goto(g, "resolve") /\ linver' = [linver EXCEPT ![g] = templates[Op(g).n]]
        ELSE /\ Goto(g, "pathread") /\ UNCHANGED linver
     /\ UNCHANGED <<templates, tokFree, tokBuf, mytok, parsed, paths, cur, resolved, result>>
